@@ -179,6 +179,12 @@ StepIII == /\ kase.kind = "ii"
                 /\ Bits(m) >= Min2(Bits(kase.s), Bits(kase.d))
                 /\ kase' = [kind |-> "iii", s |-> kase.s, m |-> m, d |-> kase.d, i |-> kase.i, v |-> kase.v, r |-> kase.r,
                          via |-> Conv(m, kase.d, Conv(kase.s, m, kase.v))]
+\* to_signed_sample (C01) / to_float_sample (C02): the conversion into the companion format
+StepVia == /\ kase.kind = "isrc"
+           /\ \E to \in {"signed", "float"} :
+                /\ (to = "signed" => "C01" \in Props) /\ (to = "float" => "C02" \in Props)
+                /\ LET d == IF to = "signed" THEN SignedOf(kase.s) ELSE FloatOf(kase.s) IN
+                   kase' = [kind |-> "via", to |-> to, s |-> kase.s, d |-> d, i |-> kase.i, v |-> kase.v, r |-> Conv(kase.s, d, kase.v)]
 StepKK  == /\ kase.kind = "ksrc"
            /\ \E db \in KWidths : \E ds \in BOOLEAN :
                 /\ << db, ds >> # << kase.sb, kase.ss >>
@@ -233,14 +239,14 @@ StepEOp == /\ kase.kind = "esrc"
            /\ \E op \in {"add", "sub", "mul"} : \E dbg \in BOOLEAN :
                 kase' = [kind |-> "eop", t |-> kase.t, op |-> op, x |-> kase.x, debug |-> dbg]
 
-Next == StepII \/ StepIII \/ StepKK \/ StepKKK \/ StepNN \/ StepIF \/ StepIFI \/ StepFI \/ StepFF
+Next == StepII \/ StepIII \/ StepVia \/ StepKK \/ StepKKK \/ StepNN \/ StepIF \/ StepIFI \/ StepFI \/ StepFF
         \/ StepTOp \/ StepTCmp \/ StepTWiden \/ StepGOp \/ StepEOp
 Spec == Init /\ [][Next]_kase
 
 ---------------------------------------------------------------------------
 (* vacuity guard (instead of -coverage, whose cost model inlines every operator at every call site and needs   *)
 (* gigabytes for the Big / Dyadic call graph): each worker reports every kind of case the first time it sees it *)
-KindNames == << "isrc", "ii", "iii", "ksrc", "kk", "kkk", "nsrc", "nn", "if", "ifi", "fsrc", "fi", "ffsrc", "ff",
+KindNames == << "via", "isrc", "ii", "iii", "ksrc", "kk", "kkk", "nsrc", "nn", "if", "ifi", "fsrc", "fi", "ffsrc", "ff",
                 "tsrc", "top", "tcmp", "twid", "rsrc", "gsrc", "gop", "esrc", "eop" >>
 KindIdx(k) == CHOOSE i \in 1..Len(KindNames) : KindNames[i] = k
 ASSUME \A i \in 1..Len(KindNames) : TLCSet(i, 0)
@@ -276,6 +282,23 @@ NarrowFloors == kase.kind = "ii" /\ Bits(kase.d) < Bits(kase.s) =>
   /\ SLe(back, kase.v) /\ SLt(SSub(kase.v, back), SPow2(Bits(kase.s) - Bits(kase.d)))
 \* via any intermediate at least as wide as the narrower endpoint = direct
 PathIndep == kase.kind = "iii" => kase.via = kase.r
+
+\* the Signed companion holds every sample of the format: to_signed_sample is lossless, keeps the amplitude up to
+\* the power-of-two scale, and offsetting by zero (there and back) returns the sample
+ViaSigned == kase.kind = "via" /\ kase.to = "signed" =>
+  /\ IsSigned(kase.d) /\ ~IsFloat(kase.d) /\ Bits(kase.d) >= Bits(kase.s)
+  /\ InRange(kase.d, kase.r)
+  /\ kase.r = SShl(Amp(kase.s, kase.v), Bits(kase.d) - Bits(kase.s))
+  /\ Conv(kase.d, kase.s, kase.r) = kase.v
+  /\ (kase.r = SZero <=> kase.v = EquilI(kase.s))
+  /\ AddAmpDefined(kase.s, kase.v, SZero) /\ AddAmp(kase.s, kase.v, SZero) = kase.v
+\* the Float companion: to_float_sample is the C02 conversion; scaling by +0.0 gives equilibrium, scaling by 1.0
+\* returns the sample whenever the width fits the mantissa
+ViaFloat == kase.kind = "via" /\ kase.to = "float" =>
+  LET F == FmtOf(kase.d)  one == Rne(F, DFromInt(1)) IN
+  /\ IsFloat(kase.d) /\ kase.r = ConvIF(kase.s, kase.d, kase.v)
+  /\ MulAmpDefined(kase.s, kase.v, FZeroF(0)) /\ MulAmp(kase.s, kase.v, FZeroF(0)) = EquilI(kase.s)
+  /\ (Bits(kase.s) <= F.p => MulAmpDefined(kase.s, kase.v, one) /\ MulAmp(kase.s, kase.v, one) = kase.v)
 
 (* the same corollaries, exhaustively, on the scaled-down formats *)
 SmallWidths ==
@@ -400,7 +423,7 @@ StimC01Set ==
        \o [i \in 1..NVals(sd[1]) |-> ConvEv(sd[1], sd[2], SJson(ValAt(sd[1], i)))] : sd \in StimC01Pairs }
   \cup
   { << Reset("mc " \o x[1] \o "->" \o x[2] \o "->" \o x[3]) >>
-       \o [k \in 1..(NVals(x[1]) \div 7) |-> Conv2Ev(x[1], x[2], x[3], SJson(ValAt(x[1], 7 * k)), k % 3)]
+       \o [k \in 1..(NVals(x[1]) \div 7) |-> Conv2Ev(x[1], x[2], x[3], SJson(ValAt(x[1], 7 * k)), k % 5)]
        : x \in StimC01Triples }
 StimC02Set ==
   { << Reset("mc " \o s \o "->" \o d) >> \o [i \in 1..NVals(s) |-> ConvEv(s, d, SJson(ValAt(s, i)))]
@@ -416,8 +439,56 @@ StimC02Set ==
        : s \in {"f64"}, d \in {"f32"} }
   \cup
   { << Reset("mc " \o s \o "->" \o m \o "->" \o s) >>
-       \o [k \in 1..(NVals(s) \div 3) |-> Conv2Ev(s, m, s, SJson(ValAt(s, 3 * k)), k % 3)]
+       \o [k \in 1..(NVals(s) \div 3) |-> Conv2Ev(s, m, s, SJson(ValAt(s, 3 * k)), k % 5)]
        : s \in IntFormats, m \in FloatFormats }
+ViaEv(s, to, vj) == [ev |-> "via", a |-> [src |-> s, to |-> to, v |-> vj]]
+AmpEv(s, op, vj, gj) == [ev |-> "amp", a |-> [src |-> s, op |-> op, v |-> vj, g |-> gj]]
+SConstEv(f) == [ev |-> "sconst", a |-> [fmt |-> f]]
+EqConvEv(s, d) == [ev |-> "eqconv", a |-> [src |-> s, dst |-> d]]
+\* gains of add_amp: zero, one step either way, one step of the source format, the ends of the Signed companion
+GAdd(s) == LET g == SignedOf(s) IN
+           << SZero, One, SNeg(One), SPow2(Bits(g) - Bits(s)), SNeg(SPow2(Bits(g) - Bits(s))), MinV(g), MaxV(g) >>
+AddPairs(s) == LET gs == GAdd(s) IN
+               SelectSeq([k \in 1..(NVals(s) * 7) |-> << ((k - 1) \div 7) + 1, ((k - 1) % 7) + 1 >>],
+                         LAMBDA ig : AddAmpDefined(s, ValAt(s, ig[1]), gs[ig[2]]))
+\* gains of mul_amp: +0.0, 1.0, 0.5, -0.5, -1.0 in the Float companion
+GMul(s) == LET F == FmtOf(FloatOf(s)) IN
+           << FZeroF(0), Rne(F, DFromInt(1)), Rne(F, DPow2(-1)), FNegF(Rne(F, DPow2(-1))), FNegF(Rne(F, DFromInt(1))) >>
+MulPairs(s) == LET gs == GMul(s) IN
+               SelectSeq([k \in 1..(NVals(s) * 5) |-> << ((k - 1) \div 5) + 1, ((k - 1) % 5) + 1 >>],
+                         LAMBDA ig : MulAmpDefined(s, ValAt(s, ig[1]), gs[ig[2]]))
+\* (operators with arguments are not cached: bind the filtered pair list and the gain list once per format)
+AddExec(s) == LET ap == AddPairs(s)  gs == GAdd(s) IN
+  << Reset("mc " \o s \o " add_amp") >>
+     \o [k \in 1..Len(ap) |-> AmpEv(s, "add", SJson(ValAt(s, ap[k][1])), SJson(gs[ap[k][2]]))]
+MulExec(s) == LET mp == MulPairs(s)  gs == GMul(s) IN
+  << Reset("mc " \o s \o " mul_amp") >>
+     \o [k \in 1..Len(mp) |-> AmpEv(s, "mul", SJson(ValAt(s, mp[k][1])), gs[mp[k][2]])]
+IntFormatSeq == SetToSeq(IntFormats)
+FormatSeq == SetToSeq(Formats)
+StimC01Extra ==
+  { << Reset("mc " \o s \o " to_signed_sample") >> \o [i \in 1..NVals(s) |-> ViaEv(s, "signed", SJson(ValAt(s, i)))] : s \in IntFormats }
+  \cup
+  { AddExec(s) : s \in IntFormats }
+  \cup
+  { << Reset("mc const") >> \o [i \in 1..Len(IntFormatSeq) |-> SConstEv(IntFormatSeq[i])] }
+  \cup
+  { << Reset("mc equilibrium " \o s) >>
+       \o SelectSeq([i \in 1..Len(IntFormatSeq) |-> EqConvEv(s, IntFormatSeq[i])], LAMBDA ev : ev.a.dst # s) : s \in IntFormats }
+StimC02Extra ==
+  { << Reset("mc " \o s \o " to_float_sample") >> \o [i \in 1..NVals(s) |-> ViaEv(s, "float", SJson(ValAt(s, i)))] : s \in IntFormats }
+  \cup
+  { << Reset("mc " \o s \o " companions") >>
+       \o [i \in 1..Len(FFSeq[s]) |-> ViaEv(s, "signed", FFSeq[s][i])] \o [i \in 1..Len(FFSeq[s]) |-> ViaEv(s, "float", FFSeq[s][i])]
+       : s \in FloatFormats }
+  \cup
+  { MulExec(s) : s \in IntFormats }
+  \cup
+  { << Reset("mc const") >> \o [i \in 1..Len(FormatSeq) |-> SConstEv(FormatSeq[i])] }
+  \cup
+  { << Reset("mc equilibrium " \o s) >>
+       \o SelectSeq([i \in 1..Len(FormatSeq) |-> EqConvEv(s, FormatSeq[i])],
+                    LAMBDA ev : ev.a.dst # s /\ (IsFloat(s) \/ IsFloat(ev.a.dst))) : s \in Formats }
 TyOpEv(t, op, x, y) == [ev |-> "ty_op", a |-> [ty |-> t, op |-> op, a |-> SJson(x), b |-> SJson(y)]]
 WidenPairs == { tu \in Types \X (PrimSources \cup Types) : tu[2] \in WidenSources(tu[1]) }
 StimC15Set ==
@@ -443,8 +514,8 @@ StimC15Set ==
              [ev |-> "ty_cmp", a |-> [ty |-> t, a |-> SJson(TSeq[t][((k - 1) \div NT(t)) + 1]),
                                       b |-> SJson(TSeq[t][((k - 1) % NT(t)) + 1])]]]
        : t \in Types }
-Stimuli == (IF "C01" \in Props THEN StimC01Set ELSE {})
-           \cup (IF "C02" \in Props THEN StimC02Set ELSE {})
+Stimuli == (IF "C01" \in Props THEN StimC01Set \cup StimC01Extra ELSE {})
+           \cup (IF "C02" \in Props THEN StimC02Set \cup StimC02Extra ELSE {})
            \cup (IF "C15" \in Props THEN StimC15Set ELSE {})
 WriteStimuli ==
   IF "STIM_OUT" \in DOMAIN IOEnv
